@@ -23,7 +23,7 @@ pub fn check() -> Check {
         id: "C23",
         title: "DNS dialing is bounded and never leaks unresolved or foreign addresses",
         level: Level::FaultEnumeration,
-        rule: "the real libp2p_dns::Transport (built through the cfg(libp2p_verif) constructor) over a simulated resolver backed by a drawn record graph of <=6 names: A/AAAA sets (0..3 records), TXT dnsaddr fan-out (0..20 entries incl. cycles, self references, foreign /p2p suffixes, malformed entries), and per-name faults: resolver error, empty answer, answer holding only records of another type, slow answer (Pending); the recording inner transport fails/succeeds dials by plan. Dialled addresses: /dns, /dns4, /dns6, /dnsaddr with and without /p2p suffix, two DNS components in one address, plain /ip4. Oracle per dial: lookups <= 32, inner dial attempts <= 16, no address given to the inner transport contains a dns component, for /dnsaddr every dialled address ends with the original suffix, the dial future resolves (no panic, no hang). Non-trivial = at least one lookup happened and (a fault fired or fan-out > 1); distinct = fingerprint of (address kind, graph shape classes, fault kinds, outcome)",
+        rule: "the real libp2p_dns::Transport (built through the cfg(libp2p_verif) constructor) over a simulated resolver backed by a drawn record graph of <=6 names: A/AAAA sets (0..3 records), TXT dnsaddr fan-out (0..20 entries incl. cycles, self references, foreign /p2p suffixes, malformed entries), and per-name faults: resolver error, empty answer, answer holding only records of another type, slow answer (Pending); the recording inner transport fails/succeeds dials by plan. Dialled addresses: /dns, /dns4, /dns6, /dnsaddr with and without /p2p suffix (also behind a relay prefix), two DNS components in one address, plain /ip4. Oracle per dial: lookups <= 32, inner dial attempts <= 16, no address given to the inner transport contains a dns component, for /dnsaddr every dialled address ends with the original suffix, the dial future resolves (no panic, no hang). Non-trivial = at least one lookup happened and (a fault fired or fan-out > 1); distinct = fingerprint of (address kind, graph shape classes, fault kinds, outcome)",
         assumptions: &["hickory Lookup values are built by hand (Lookup::new_with_max_ttl); the resolver seam is the crate's own Resolver trait"],
         real: &["libp2p_dns::Transport::do_dial, resolve, parse_dnsaddr_txt"],
         stub: &["hickory resolver -> simulated record graph", "inner transport -> recording transport"],
@@ -247,9 +247,11 @@ fn dial() -> SimResult {
     let start = choose(nn);
     let want_suffix = choose(3);
     let suffix: Multiaddr = if want_suffix == 0 { Multiaddr::empty() } else { format!("/p2p/{}", peers[want_suffix - 1]).parse().unwrap() };
-    let kind = choose(7);
+    let kind = choose(8);
     let addr: Multiaddr = match kind {
         0 => format!("/dnsaddr/n{start}{suffix}"),
+        // a /dnsaddr behind other components (e.g. reached through a relay): the same suffix rule applies
+        7 => format!("/ip4/10.9.9.8/tcp/4001/p2p/{}/p2p-circuit/dnsaddr/n{start}{suffix}", peers[0]),
         1 => format!("/dns4/n{start}/tcp/4001{suffix}"),
         2 => format!("/dns6/n{start}/tcp/4001{suffix}"),
         3 => format!("/dns/n{start}/tcp/4001{suffix}"),
@@ -281,7 +283,7 @@ fn dial() -> SimResult {
     ensure!(na <= 16, "C23/too-many-dials", "{na} inner dial attempts for one dial of {addr}");
     for d in &dialled {
         ensure!(!has_dns(d), "C23/unresolved-address-dialled", "inner transport was handed {d} which still contains a DNS component (dialling {addr})");
-        if kind == 0 || kind == 6 {
+        if kind == 0 || kind == 6 || kind == 7 {
             ensure!(d.ends_with(&suffix), "C23/foreign-suffix-dialled", "dialling {addr}: inner transport was handed {d} which does not end with the original suffix {suffix}");
         }
     }
